@@ -109,6 +109,16 @@ theorem enqueue_of_mem {c : Center} {hk : HKey} {h : Hold} {q : Note} (hg : AL.g
     (hm : q ∈ h.queue) : enqueue c hk q = c := by
   simp [enqueue, hg, hm]
 
+theorem enqueue_fresh_eq {c : Center} {hk : HKey} {h : Hold} {q : Note} (hg : AL.get? c.holds hk = some h)
+    (hm : q ∉ h.queue) :
+    enqueue c hk q = { c with holds := AL.set c.holds hk { h with queue := h.queue ++ [q] } } := by
+  simp [enqueue, hg, hm]
+
+theorem get?_enqueue_fresh {c : Center} {hk : HKey} {h : Hold} {q : Note} (hg : AL.get? c.holds hk = some h)
+    (hm : q ∉ h.queue) :
+    AL.get? (enqueue c hk q).holds hk = some { h with queue := h.queue ++ [q] } := by
+  rw [enqueue_fresh_eq hg hm]; simp
+
 theorem enqueue_of_absent {c : Center} {hk : HKey} {q : Note} (hg : AL.get? c.holds hk = none) :
     enqueue c hk q = c := by
   simp [enqueue, hg]
